@@ -205,9 +205,9 @@ _PRE: dict = {}
 def _cfg_for(mode: str, sigma: list[str], maxlen: int, size: int, d, emit_all: bool):
     return tlc.write_cfg(d / f"{mode}-{len(sigma)}-{size}.cfg",
                          {"Sigma": set(sigma), "MaxLen": maxlen, "Mode": mode, "SetSize": size, "EmitJson": emit_all},
-                         [{"attr": "EmitAttr", "enum": "EmitEnum", "param": "EmitParam", "class": "EmitClass",
+                         [{"attr": "EmitAttr", "enum": "EmitEnum", "enummenu": "EmitEnum", "param": "EmitParam", "class": "EmitClass",
                            "ops": "EmitOps", "allof": "EmitAllof", "nested": "EmitNested"}[mode]]
-                         + {"param": ["N3Terminates", "N2Param"], "attr": ["N2Attr"], "enum": ["N2Enum"],
+                         + {"param": ["N3Terminates", "N2Param"], "attr": ["N2Attr"], "enum": ["N2Enum"], "enummenu": ["N2Enum"],
                             "allof": ["N2Allof"]}.get(mode, []))
 
 
